@@ -41,6 +41,9 @@ template <integral Int, from_integer_options Options = from_integer_options{}>
         }
         return {.end = str + i, .error = from_integer_error::none};
     }
+    if (length == 0) {
+        return {.end = str, .error = from_integer_error::overflow};
+    }
 
     bool isNegative = false;
     if constexpr (is_signed_v<Int>) {
@@ -51,19 +54,22 @@ template <integral Int, from_integer_options Options = from_integer_options{}>
     }
 
     while (num != 0) {
+        if (length <= i) {
+            return {.end = nullptr, .error = from_integer_error::overflow};
+        }
+
         auto const [quot, rem] = etl::idiv(num, static_cast<Int>(base));
         auto const digit       = static_cast<char>(etl::abs(rem));
 
         str[i++] = (digit > 9) ? (digit - 10) + 'a' : digit + '0';
         num      = quot;
-
-        if (length <= i) {
-            return {.end = nullptr, .error = from_integer_error::overflow};
-        }
     }
 
     etl::reverse(str + static_cast<size_t>(isNegative), str + i);
     if constexpr (Options.terminate_with_null) {
+        if (length <= i) {
+            return {.end = nullptr, .error = from_integer_error::overflow};
+        }
         str[i] = '\0';
     }
 
